@@ -4,6 +4,7 @@
    observed by the harness. *)
 From FMP Require Import Base.Bytes Base.Lts Model.Events Model.Skeleton Model.Props Model.Writer Model.Receiver
      Proofs.WriterProofs Proofs.ReceiverProofs Proofs.SkeletonProofs.
+From FMP Require Import Model.Paths Proofs.PathsC08.
 From FMP Require Import Model.CodecCfg Proofs.CodecCfgProofs.
 From FMP Require Import Proofs.WriterProgress Proofs.WriterCancel.
 Open Scope Z_scope.
@@ -75,6 +76,12 @@ Proof. exact writer_cancelled_call_queues_cancel. Qed.
 Theorem C08_cancellation_uses_the_async_hand_off : cdf_blocking_senders codecfacts_now = true /\ cdf_cancel_async codecfacts_now = true.
 Proof. exact codec_blocking_senders. Qed.
 
+(* on every path through dispatch.Call as it is in the source now, leaving through a context arm (in either wait) means
+   handleCancel was called exactly once, after the hand-off to the encoder and before the call is unregistered, and no other
+   way out calls it; handleCancel queues exactly one cancellation frame on every path and returns the context's error *)
+Theorem C08_source_cancel_paths : call_paths_cancel = true.
+Proof. exact paths_call_cancel. Qed.
+
 Print Assumptions C08_cancel_unblocks.
 Print Assumptions C08_cancel_frame_queued.
 Print Assumptions C08_cancel_frame_can_move.
@@ -84,3 +91,4 @@ Print Assumptions C08_generated_ok.
 Print Assumptions C08_cancelled_sender_returns.
 Print Assumptions C08_cancelled_call_queues_cancel.
 Print Assumptions C08_cancellation_uses_the_async_hand_off.
+Print Assumptions C08_source_cancel_paths.
